@@ -4,7 +4,7 @@
 //! stubbed by a solver-chosen answer per pattern. Natively the same body builds real glob
 //! patterns that realise those answers for the path `src/a.lua` and runs the unstubbed code.
 use crate::source::Source;
-use crate::{claim, note, witness};
+use crate::{claim, note, observe};
 use darklua_core::verif as hooks;
 use std::path::Path;
 
@@ -61,8 +61,8 @@ fn rule_filters<S: Source>(s: &mut S, apply: usize, skip: usize) {
     let expected = reference(&answers[..apply], &answers[apply..apply + skip]);
     note!(s, "rule filters apply={:?} skip={:?} (true = pattern matches src/a.lua): should_apply={} expected={}",
         &answers[..apply], &answers[apply..apply + skip], result, expected);
-    witness!(result, "rule applies");
-    witness!(!result || apply + skip == 0, "rule skipped");
+    observe!(result, "rule applies");
+    observe!(!result || apply + skip == 0, "rule skipped");
     claim!(s, result == expected, "a rule runs on a file exactly when (no apply pattern or some apply pattern matches) and no skip pattern matches");
     core::mem::forget(metadata);
 }
@@ -88,8 +88,8 @@ fn config_filters<S: Source>(s: &mut S, apply: usize, skip: usize) {
     let expected = reference(&answers[..apply], &answers[apply..apply + skip]);
     note!(s, "top-level filters apply={:?} skip={:?}: should_apply_rule={} expected={}",
         &answers[..apply], &answers[apply..apply + skip], result, expected);
-    witness!(result, "file processed");
-    witness!(!result || apply + skip == 0, "file skipped");
+    observe!(result, "file processed");
+    observe!(!result || apply + skip == 0, "file skipped");
     claim!(s, result == expected, "a file is transformed exactly when (no apply pattern or some apply pattern matches) and no skip pattern matches");
     core::mem::forget(configuration);
 }
